@@ -23,7 +23,7 @@ package tls
 //@ spec alpnEncWalk(ps) = alpnEnc(0) == 6 && forall j in 0..len(ps): alpnEnc(j+1) == alpnEnc(j) + 1 + len(ps[j])
 
 //@ func (*ALPNExtension).Len
-//@   property C08 C02
+//@   property C08 C02 C03
 //@   let n = len(e.AlpnProtocols)
 //@   requires e != nil
 //@   requires walk: alpnEncWalk(e.AlpnProtocols)
@@ -39,7 +39,7 @@ package tls
 //@   loop 0 invariant forall j in 0..$k: 6 <= alpnEnc(j) && alpnEnc(j+1) <= alpnEnc($k)
 
 //@ func (*ALPNExtension).Read
-//@   property C08 C02
+//@   property C08 C02 C03
 //@   let n = len(e.AlpnProtocols)
 //@   let L = alpnEnc(n)
 //@   let b0 = b
@@ -65,7 +65,7 @@ package tls
 // with the code point taken from e.codePoint, which the two public wrappers set before encoding.
 
 //@ func (*applicationSettingsExtension).Len
-//@   property C08 C02
+//@   property C08 C02 C03
 //@   let n = len(supportedProtocols)
 //@   requires walk: alpnEncWalk(supportedProtocols)
 //@   pure
@@ -79,7 +79,7 @@ package tls
 //@   loop 0 invariant forall j in 0..$k: 6 <= alpnEnc(j) && alpnEnc(j+1) <= alpnEnc($k)
 
 //@ func (*applicationSettingsExtension).Read
-//@   property C08 C02
+//@   property C08 C02 C03
 //@   let n = len(supportedProtocols)
 //@   let L = alpnEnc(n)
 //@   let b0 = b
@@ -101,7 +101,7 @@ package tls
 //@   loop 0 invariant forall j in 0..$k: 6 <= alpnEnc(j) && alpnEnc(j+1) <= alpnEnc($k)
 
 //@ func (*ApplicationSettingsExtension).Len
-//@   property C08 C02
+//@   property C08 C02 C03
 //@   let n = len(e.SupportedProtocols)
 //@   requires e != nil
 //@   requires walk: alpnEncWalk(e.SupportedProtocols)
@@ -112,7 +112,7 @@ package tls
 //@   ensures one: n == 1 ==> ret == 7 + len(e.SupportedProtocols[0])
 
 //@ func (*ApplicationSettingsExtension).Read
-//@   property C08 C02
+//@   property C08 C02 C03
 //@   let n = len(e.SupportedProtocols)
 //@   let L = alpnEnc(n)
 //@   let ps = e.SupportedProtocols
@@ -128,7 +128,7 @@ package tls
 //@   ensures entbytes: len(b) >= L ==> forall j in 0..n: forall k in 0..len(ps[j]): b[alpnEnc(j)+1+k] == ps[j][k]
 
 //@ func (*ApplicationSettingsExtensionNew).Len
-//@   property C08 C02
+//@   property C08 C02 C03
 //@   let n = len(e.SupportedProtocols)
 //@   requires e != nil
 //@   requires walk: alpnEncWalk(e.SupportedProtocols)
@@ -139,7 +139,7 @@ package tls
 //@   ensures one: n == 1 ==> ret == 7 + len(e.SupportedProtocols[0])
 
 //@ func (*ApplicationSettingsExtensionNew).Read
-//@   property C08 C02
+//@   property C08 C02 C03
 //@   let n = len(e.SupportedProtocols)
 //@   let L = alpnEnc(n)
 //@   let ps = e.SupportedProtocols
@@ -176,7 +176,7 @@ package tls
 //@   loop 0 invariant forall j in 0..$k: 6 <= ksEnc(j) && ksEnc(j+1) <= ksEnc($k)
 
 //@ func (*KeyShareExtension).Len
-//@   property C08 C02 C17 C18
+//@   property C08 C02 C17 C18 C03
 //@   let n = len(e.KeyShares)
 //@   requires e != nil
 //@   requires walk: ksEncWalk(e.KeyShares)
@@ -188,7 +188,7 @@ package tls
 //@   ensures one: n == 1 ==> ret == 10 + len(e.KeyShares[0].Data)
 
 //@ func (*KeyShareExtension).Read
-//@   property C08 C02 C17 C18
+//@   property C08 C02 C17 C18 C03
 //@   let n = len(e.KeyShares)
 //@   let L = ksEnc(n)
 //@   let ks = e.KeyShares
@@ -305,7 +305,7 @@ package tls
 //@ spec pskValidBinder(l) = exists i in 0..len(validHashLen): validHashLen[i] == l
 
 //@ func (*FakePreSharedKeyExtension).Len
-//@   property C08 C02
+//@   property C08 C02 C03
 //@   requires e != nil
 //@   requires walk: pskWalk(e.Identities, e.Binders)
 //@   pure
@@ -319,7 +319,7 @@ package tls
 //@   ensures ret <==> len(*b) == *valid
 
 //@ func (*FakePreSharedKeyExtension).Read
-//@   property C08 C02
+//@   property C08 C02 C03
 //@   let ids = e.Identities
 //@   let bds = e.Binders
 //@   let ni = len(e.Identities)
@@ -359,7 +359,7 @@ package tls
 //@ spec pskLenOf(ids, bds) = ite(pskNone(ids, bds), 0, pskBd(len(bds)))
 
 //@ func (*UtlsPreSharedKeyExtension).Len
-//@   property C08 C02
+//@   property C08 C02 C03
 //@   requires e != nil
 //@   requires walk: pskWalk(e.Identities, e.Binders)
 //@   pure
@@ -367,7 +367,7 @@ package tls
 //@   ensures computed: e.Session != nil ==> ret == pskLenOf(e.Identities, e.Binders)
 
 //@ func (*UtlsPreSharedKeyExtension).Read
-//@   property C08 C02
+//@   property C08 C02 C03
 //@   let ids = e.Identities
 //@   let bds = e.Binders
 //@   let ni = len(e.Identities)
@@ -406,7 +406,7 @@ package tls
 //@ spec qtpReady(e) = e.marshalResult != nil || ((forall j in 0..len(e.TransportParameters): e.TransportParameters[j] != nil) && (forall j in 0..len(e.TransportParameters): 0 <= tpid(val(e.TransportParameters[j])) && tpid(val(e.TransportParameters[j])) <= 4611686018427387903 && tpvlen(val(e.TransportParameters[j])) <= 4611686018427387903) && tppos(0) == 0 && (forall j in 0..len(e.TransportParameters): tppos(j+1) == tppos(j) + tphdr(e.TransportParameters[j]) + tpvlen(val(e.TransportParameters[j]))))
 
 //@ func (*QUICTransportParametersExtension).Len
-//@   property C08 C02
+//@   property C08 C02 C03
 //@   let n = len(e.TransportParameters)
 //@   requires e != nil
 //@   requires ready: qtpReady(e)
@@ -419,7 +419,7 @@ package tls
 //@   ensures computed_fresh: old(e.marshalResult == nil) ==> isnil(e.marshalResult) || fresh(e.marshalResult)
 
 //@ func (*QUICTransportParametersExtension).Read
-//@   property C08 C02
+//@   property C08 C02 C03
 //@   let n = len(e.TransportParameters)
 //@   let m = ite(e.marshalResult != nil, len(e.marshalResult), tppos(n))
 //@   requires e != nil
